@@ -16,7 +16,7 @@ def __init__({sig}):
             raise ValueError()
         generator = zip(keys, values)
     else:
-        generator = dict().items()
+        generator = {empty}
     data = {{contract.static_hashing(): value for contract, value in generator if not isinstance(contract, Cash) if value != 0}}
     super().__init__(data)
 """
@@ -28,14 +28,15 @@ def allocation_filters(ck, an, name_prefix):
     subj = fa.f.short
     # value id of what initialises the dictionary against the reference: equal ids discharge every clause below whatever the
     # spelling (loop / comprehension / helper / temporaries); when they differ, the clauses below name what changed
-    ref = _lib.reference(fa, REF_ALLOC_INIT.format(sig=ast.unparse(fa.f.node.args)))
+    refs = [_lib.reference(fa, REF_ALLOC_INIT.format(sig=ast.unparse(fa.f.node.args), empty=e_)) for e_ in ("dict().items()", "()", "[]", "iter(())")]     # "nothing to iterate": any empty iterable
 
     def init_arg(x):
         cs = [c for c in x.calls_named("__init__") if c.args]
         return x.sym.canon(cs[0].args[0], x.node_of(cs[0]).id) if len(cs) == 1 else None
-    got, want = init_arg(fa), init_arg(ref)
+    got, wants = init_arg(fa), [init_arg(r_) for r_ in refs]
+    want = wants[0]
     raises_ok = len([n for n in walk_function(fa.f.node) if isinstance(n, ast.Raise)]) == 1
-    if got is not None and got == want and raises_ok:
+    if got is not None and got in wants and raises_ok:
         for cl, what in (("drops-cash", "entries for Cash contracts are dropped"), ("drops-zero", "zero entries are dropped"), ("no-other-filter", "no other entry is filtered out"),
                          ("static-hashing-key", "keys are normalised with static_hashing()"), ("value-unchanged", "values are stored unchanged"),
                          ("filtered-data-used", "the filtered mapping initialises the dictionary"), ("pairs-source", "pairs come from mapping.items() or zip(keys, values) (i-th key with i-th value)")):
